@@ -94,7 +94,7 @@ fn main() {
             "--input" => {
                 let m = parse_flat(&args[i + 1]);
                 if m.contains_key("stale_output") { std::env::set_var("VERIF_STALE_OUTPUT", "1"); }
-                if m.contains_key("input_gzm") { std::env::set_var("VERIF_INPUT_GZM", "1"); }
+                if let Some(k) = m.get("input_kind") { std::env::set_var("VERIF_INPUT_KIND", k); }
                 o.input = Some(m); i += 1;
             }
             _ => {}
